@@ -16,6 +16,7 @@ package io
 import (
 	"fmt"
 	"reflect"
+	"strconv"
 	"strings"
 	"sync"
 
@@ -166,8 +167,16 @@ func (dec *Decoder) ReadStruct(t reflect.Type) {
 	dec.ref = append(dec.ref, makeStructInfo(name, names, t))
 }
 
-func (dec *Decoder) getStructInfo(index int) structInfo {
-	return dec.ref[index]
+// getStructInfo returns the class definition the wire index names; the index is untrusted:
+// ok is false (and a decode error is set) when no such class has been read.
+func (dec *Decoder) getStructInfo(index int) (info structInfo, ok bool) {
+	if index < 0 || index >= len(dec.ref) {
+		if dec.Error == nil {
+			dec.Error = DecodeError("hprose/io: class index " + strconv.Itoa(index) + " out of range")
+		}
+		return info, false
+	}
+	return dec.ref[index], true
 }
 
 var structTypeMap sync.Map
